@@ -14,7 +14,7 @@ use std::cell::RefCell;
 use std::rc::Rc;
 
 const SIGMA: [&str; 14] = ["a", " ", "\"", "#", "\\", "$", "{", "}", "%", "\n", "\r", "=", "\t", "é"];
-const SPECIAL: [&str; 8] = ["${v}", "%{v}", "\\${v}", "${w}", "a b", "\"a b\"", "a  b", "x=y"];
+const SPECIAL: [&str; 15] = ["${v}", "%{v}", "\\${v}", "${w}", "a b", "\"a b\"", "a  b", "x=y", "and", "or", "not", "(", ")", "true", "false"];
 const WRAPPERS: [&str; 11] = ["direct", "if", "elseif", "while", "not", "alias-stored", "alias-passed", "function", "alias-of-not", "alias-of-not-stored", "alias-stored-then-refused-redefinition"];
 
 struct Rig {
@@ -218,8 +218,8 @@ fn class_of(v: &str) -> &'static str {
 
 pub fn bounds(tier: Tier) -> Value {
     match tier {
-        Tier::Quick => json!({"value_len": 3, "alphabet": 14, "special_values": 8, "positions": 2, "wrappers": 10}),
-        Tier::Thorough => json!({"value_len": 4, "alphabet": 14, "special_values": 8, "positions": 2, "wrappers": 10}),
+        Tier::Quick => json!({"value_len": 3, "alphabet": 14, "special_values": 15, "positions": 2, "wrappers": 10}),
+        Tier::Thorough => json!({"value_len": 4, "alphabet": 14, "special_values": 15, "positions": 2, "wrappers": 10}),
     }
 }
 
